@@ -45,6 +45,16 @@ fn bignum_forms() -> Vec<Vec<u8>> {
 
 /// A header whose counter signature holds a header whose counter signature ... `depth` levels.
 /// idx 0..28 are the deterministic all-bare / all-[sig] chains for each depth; the rest are random.
+/// depth of chain `idx` (must consume the PRNG exactly like `csig_chain` does first)
+fn csig_chain_depth(ctx: &mut Ctx, idx: u64) -> usize {
+    if idx < 28 {
+        (idx / 2) as usize + 1
+    } else {
+        let mut r = crate::rng::Rng::for_case(ctx.seed, crate::mon::prop_num(ctx.prop), ctx.phase as u64, idx);
+        1 + r.below(14)
+    }
+}
+
 pub fn csig_chain(ctx: &mut Ctx, idx: u64) -> Vec<u8> {
     let (depth, forced_form): (usize, Option<usize>) = if idx < 28 { ((idx / 2) as usize + 1, Some((idx % 2) as usize)) } else { (1 + ctx.rng.below(14), None) };
     let via_prot_all = if idx < 56 && idx >= 28 { Some(idx % 2 == 0) } else { None };
@@ -231,6 +241,8 @@ impl Check for C07 {
                 ctx.max("csig-chain-bytes", b.len() as u64);
                 let accepted = fixed_point_check(ctx, Ty::Header, &b, false);
                 ctx.count(if accepted { "csig-chain-accepted" } else { "csig-chain-rejected" });
+                let depth = csig_chain_depth(ctx, idx);
+                ctx.count(&format!("csig-chain-depth-{:02}-{}", depth, if accepted { "accepted" } else { "rejected" }));
                 // the same header inside messages
                 let mut s1 = vec![0x84];
                 rcbor::put_head(&mut s1, 2, b.len() as u64, &mut Style::canonical());
@@ -266,6 +278,18 @@ impl Check for C07 {
         v
     }
     fn finish(&self, m: &mut Ctx) -> Result<(), String> {
+        // whether a chain of counter signatures is accepted may depend on its depth (an
+        // implementation limit) but not on whether the levels go through protected or unprotected
+        // headers or on the single / array form: otherwise a value that encodes does not decode
+        for d in 1..=14 {
+            let a = m.counters.get(&format!("csig-chain-depth-{:02}-accepted", d)).copied().unwrap_or(0);
+            let r = m.counters.get(&format!("csig-chain-depth-{:02}-rejected", d)).copied().unwrap_or(0);
+            if a > 0 && r > 0 {
+                m.phase = 6;
+                m.idx = 0;
+                m.violation("C07/nesting-limit-depends-on-carrier", format!("counter-signature chains of depth {} are accepted in some forms ({} chains) and rejected in others ({}): the nesting limit is not charged uniformly, so some values that encode cannot be decoded", d, a, r), crate::json::J::obj(vec![("depth", crate::json::J::UInt(d))]));
+            }
+        }
         if m.counters.get("accepted-noncanonical").copied().unwrap_or(0) < 5000 {
             return Err("fewer than 5000 accepted non-canonical inputs".into());
         }
